@@ -17,6 +17,9 @@ GEN_MODULE = "XzVerif.Gen.Kernels"
 TABLES_MODULE = "XzVerif.Gen.KernelsTables"
 GRID_MODULE = "XzVerif.Gen.KernelsGrid"
 PROP_MODULES = ["XzVerif.Props.Kernels"]
+# which bridge module each property builds at stage P (a kernel without `props` belongs to DEFAULT_PROPS)
+PROP_MODULES_BY_PID = {"C15": ["XzVerif.Props.KernelsBcj"]}
+DEFAULT_PROPS = ("C02", "C09", "C13")
 
 L = "src/liblzma/"
 # Order matters: a kernel may only call kernels listed before it.
@@ -92,7 +95,109 @@ KERNELS = [
     dict(name="comp_blk_size", src=L + "common/stream_decoder_mt.c"),
     dict(name="round_up_to_mib", src="src/xz/util.c", tu="src/xz/util.c"),
     dict(name="hardware_memlimit_get", src="src/xz/hardware.c", tu="src/xz/hardware.c"),
+    dict(name="hardware_memlimit_mtenc_is_default", src="src/xz/hardware.c", tu="src/xz/hardware.c"),
+    dict(name="hardware_memlimit_mtenc_get", src="src/xz/hardware.c", tu="src/xz/hardware.c"),
+    dict(name="hardware_memlimit_mtdec_get", src="src/xz/hardware.c", tu="src/xz/hardware.c"),
+    # ---- BCJ filters: the loop body (one instruction word) of each fixed-width filter, in BitVec mode; `buffer_i_k` = buffer[i + k],
+    # the loop driver (alignment of `size`, stride, return value) stays hand-modelled (Model/Bcj.lean `blockCode` / `thumbGo`)
+    dict(name="arm_code", lean="arm_word", src=L + "simple/arm.c", bitvec=True, props=("C15",),
+         fragment=dict(first=dict(if_array="buffer"), last=dict(if_array="buffer"))),
+    dict(name="armthumb_code", lean="armthumb_word", src=L + "simple/armthumb.c", bitvec=True, props=("C15",),
+         fragment=dict(first=dict(if_array="buffer"), last=dict(if_array="buffer"))),
+    dict(name="powerpc_code", lean="powerpc_word", src=L + "simple/powerpc.c", bitvec=True, props=("C15",),
+         fragment=dict(first=dict(if_array="buffer"), last=dict(if_array="buffer"))),
+    dict(name="sparc_code", lean="sparc_word", src=L + "simple/sparc.c", bitvec=True, props=("C15",),
+         fragment=dict(first=dict(if_array="buffer"), last=dict(if_array="buffer"))),
+    dict(name="arm64_code", lean="arm64_word", src=L + "simple/arm64.c", bitvec=True, props=("C15",), ignore_calls=["write32le", "write32ne"],
+         fragment=dict(first=dict(if_var="instr"), last=dict(if_var="instr"), continue_ends=True)),
 ]
+
+
+# Hand models the kernels are bridged to, in evaluable form, for the DIAGNOSTIC search that runs whenever the translated
+# arithmetic changes: (domain condition, list of Nat results) over the kernel's Lean arguments a0, a1, …  A disagreement at a
+# grid point (values from the COMPILED C code) is reported with the broken bridge, as the concrete disagreeing argument.
+MODEL_EVAL = {
+    "lzma_vli_size": ("true", "[Vli.vliSize a0]"),
+    "vli_ceil4": ("a0 + 3 < U64", "[Container.ceil4 a0]"),
+    "index_size_unpadded": ("a1 + 14 < U64", "[Container.indexSizeUnpadded a0 a1]"),
+    "index_size": ("a1 + 17 < U64", "[Container.indexSize a0 a1]"),
+    "index_stream_size": ("a0 + a2 + 41 < U64", "[Container.indexStreamSize a0 a1 a2]"),
+    "index_file_size": ("a0 + a4 + a1 + 27 < U64 ∧ a3 + 17 ≤ 9223372036854775808", "[ofOpt (Container.indexFileSize a0 a1 a2 a3 a4)]"),
+    "lzma_index_memusage": ("true", "[Index.memusage a0 a1]"),
+    "lzma_check_size": ("true", "[Container.checkSize a0]"),
+    "lzma_block_unpadded_size": ("true", "[Container.blockUnpaddedSize a3 a2 a0 (optVli a1)]"),
+    "lzma_block_total_size": ("true", "[Container.blockTotalSize a3 a2 a0 (optVli a1)]"),
+    "lzma2_bound": ("true", "[Container.lzma2Bound a0]"),
+    "lzma_block_buffer_bound64": ("true", "[Container.blockBufferBound64 a0]"),
+    "lzma_block_buffer_bound": ("true", "[Container.blockBufferBound a0]"),
+    "lzma_stream_buffer_bound": ("true", "[Container.streamBufferBound a0]"),
+    "is_backward_size_valid": ("true", "[if Container.isBackwardSizeValid a0 then 1 else 0]"),
+    "lzma_lz_decoder_memusage": ("a0 < 9223372036854775808", "[Memusage.lzDecoderMemusage Memusage.thisBuild a0]"),
+    "lzma_lzma_decoder_memusage_nocheck": ("a0 < 4294967296", "[Memusage.lzmaDecoderMemusageNocheck Memusage.thisBuild { dict := a0 }]"),
+    "lzma_lzma2_decoder_memusage": ("a0 < 4294967296", "[Memusage.lzma2DecoderMemusage Memusage.thisBuild { dict := a0 }]"),
+    "lzma_outq_outbuf_memusage": ("a0 < 9223372036854775808", "[Memusage.outbufMemusage Memusage.thisBuild a0]"),
+    "lzma_outq_memusage": ("true", "[ofOpt (Memusage.outqMemusage Memusage.thisBuild a0 a1)]"),
+    "lzma_lzma2_props_encode": ("a0 < 4294967296", "[0, Container.lzma2DictEncode a0]"),
+    "lzma_index_padding_size": ("a0 + 14 < U64", "[Container.indexPaddingSize a1 a0]"),
+    "comp_blk_size": ("a0 + 67 < U64 ∧ a1 ≤ 15", "[Container.ceil4 a0 + Container.checkSize a1]"),
+    "round_up_to_mib": ("true", "[(a0 + 1048575) / 1048576]"),
+    "get_dist_slot": ("true", "[Container.getDistSlot a0]"),
+    "update_literal": ("true", "[Lzma.updateLiteral a0]"),
+    "update_match": ("true", "[Lzma.updateMatch a0]"),
+    "update_long_rep": ("true", "[Lzma.updateLongRep a0]"),
+    "update_short_rep": ("true", "[Lzma.updateShortRep a0]"),
+    "get_dist_state": ("2 ≤ a0", "[Lzma.getDistState a0]"),
+}
+MODEL_IMPORTS = ["XzVerif.Model.Container", "XzVerif.Model.IndexSpec", "XzVerif.Model.Memusage", "XzVerif.Model.MemusageBuild", "XzVerif.Model.Lzma"]
+
+
+def search_disagreements(info):
+    """Evaluate the hand models (Lean `#eval`, no Gen file involved) on the grid points whose C values the probes just
+    produced; returns [(kernel, args, C result, model result)]. Cached per content of Gen/Kernels.lean."""
+    import hashlib, json
+    h = hashlib.sha1((info["gen"] + repr(sorted(MODEL_EVAL.items()))).encode()).hexdigest()[:16]
+    cpath = os.path.join(vlib.CACHE, "kern", "disagree-%s.json" % h)
+    if os.path.exists(cpath):
+        try:
+            return json.load(open(cpath))
+        except Exception:
+            pass
+    lines = ["import %s" % m for m in MODEL_IMPORTS] + ["open XzVerif", "def U64 : Nat := 18446744073709551616",
+             "def optVli (v : Nat) : Option Nat := if v = 18446744073709551615 then none else some v",
+             "def ofOpt : Option Nat → Nat | none => 18446744073709551615 | some v => v", ""]
+    index = []
+    for name, (dom, val) in MODEL_EVAL.items():
+        if name not in info["grids"]:
+            continue
+        pts, vals = info["grids"][name]
+        if not pts or not pts[0]:
+            continue
+        binds = " ".join("let a%d : Nat := a.getD %d 0;" % (j, j) for j in range(len(pts[0])))
+        lines.append("#eval IO.println (String.intercalate \"\\n\" (([%s] : List (List Nat)).map fun a => (%s if (%s) then toString (%s) else \"none\")))"
+                     % (", ".join("[" + ", ".join(str(x) for x in p) + "]" for p in pts), binds, dom, val))
+        for p, v in zip(pts, vals):
+            index.append((name, list(p), list(v)))
+    d = os.path.join(vlib.CACHE, "kern")
+    os.makedirs(d, exist_ok=True)
+    path = os.path.join(d, "Disagree.lean")
+    with open(path, "w") as f:
+        f.write("\n".join(lines) + "\n")
+    rc, out = vlib.lean_run_file(path, timeout=600)
+    outs = [l for l in out.split("\n") if l.startswith(("[", "none"))]
+    res = []
+    if rc == 0 and len(outs) == len(index):
+        for (name, p, v), o in zip(index, outs):
+            if o.startswith("["):
+                m = [int(x) for x in o.strip("[] ").replace(" ", "").split(",") if x]
+                if m != v:
+                    res.append([name, p, v, m])
+    else:
+        res.append(["(the diagnostic evaluation itself failed)", [], [], [out[-400:]]])
+    try:
+        json.dump(res, open(cpath, "w"))
+    except OSError:
+        pass
+    return res
 
 
 def src_path(spec):
@@ -283,7 +388,8 @@ def regenerate(kernels=None, write=True):
         vlib.write_if_changed(vlib.module_path(GEN_MODULE), "\n".join(gen))
         vlib.write_if_changed(vlib.module_path(GRID_MODULE), "\n".join(grid))
     info = {"translated": sorted(done), "failed": [f[0] for f in failures], "grid_points": npts, "t_ast_s": round(t_ast, 1), "t_const_s": round(t_const, 1),
-            "t_grid_s": round(t_grid, 1), "t_total_s": round(time.time() - t0, 1), "log": log, "gen": "\n".join(gen), "grid": "\n".join(grid), "res": res}
+            "t_grid_s": round(t_grid, 1), "t_total_s": round(time.time() - t0, 1), "log": log, "gen": "\n".join(gen), "grid": "\n".join(grid), "res": res,
+            "grids": grids}
     return failures, info
 
 
@@ -295,13 +401,33 @@ def run_stage(ctx):
         except Exception as e:      # machinery problem (no compile_commands.json, …): also an obligation that cannot be checked
             import traceback
             ctx.obligation_broken("stage G: Gen/Kernels.lean cannot be regenerated (%s)" % type(e).__name__, traceback.format_exc())
-            return list(PROP_MODULES)
+            return list(PROP_MODULES_BY_PID.get(ctx.pid, PROP_MODULES))
+    mine = {key_of(sp) for sp in KERNELS if ctx.pid in sp.get("props", DEFAULT_PROPS)}
     for name, why in failures:
-        ctx.obligation_broken("stage G: kernel `%s` no longer translates into the supported subset" % name, why)
+        if name in mine:
+            ctx.obligation_broken("stage G: kernel `%s` no longer translates into the supported subset" % name, why)
+        else:
+            ctx.log("kernels: `%s` (bridged for another property) does not translate: %s" % (name, why[:200]))
     ctx.cov.setdefault("kernels", {}).update({"translated": info["translated"], "failed": info["failed"], "grid_points": info["grid_points"],
                                              "stage_g_s": info["t_total_s"]})
     ctx.log("kernels: %d translated, %d failed, %d grid points, %.1fs" % (len(info["translated"]), len(failures), info["grid_points"], info["t_total_s"]))
-    return list(PROP_MODULES)
+    # diagnostic search: concrete arguments on which the compiled C kernel and its hand model disagree
+    try:
+        dis = search_disagreements(info)
+    except Exception as e:
+        dis = []
+        ctx.log("kernels: diagnostic search failed (%s)" % e)
+    by = {}
+    for name, p, v, m in dis:
+        by.setdefault(name, []).append((p, v, m))
+    for name, l in by.items():
+        p, v, m = l[0]
+        if name not in mine and not name.startswith("("):
+            continue
+        ctx.obligation_broken("kernel `%s` disagrees with its hand model, e.g. at arguments %s: the code returns %s, the model %s (%d grid points differ)"
+                              % (name, p, v, m, len(l)), repr(l[:20]))
+    ctx.cov["kernels"]["model_disagreements"] = {k: len(v) for k, v in by.items()}
+    return list(PROP_MODULES_BY_PID.get(ctx.pid, PROP_MODULES))
 
 
 if __name__ == "__main__":
